@@ -11,6 +11,7 @@ part validates the decoder / codec oracles and is testing).
 """
 from __future__ import annotations
 
+import copy
 import itertools
 import json
 import os
@@ -408,6 +409,21 @@ def e2e_configs(tier):
              writes_per_chunk=2, min_write_sz=500, spill_sz=500, band_chunk=1, scheduler="threads:3"),
         dict(base, H=15, W=17, dtype="float32", chunks=(20, 9), blocksize=[(32, 16), 32, 16], compression="none",
              writes_per_chunk=2, min_write_sz=64, spill_sz=256),
+        # pixel-interleaved sources chunked along the sample axis (da.stack(bands, axis=-1) style)
+        dict(base, H=50, W=70, axis="YXS", S=3, dtype="uint8", band_chunk=1),
+        dict(base, H=40, W=40, axis="YXS", S=4, dtype="int16", band_chunk=2, chunks=(16, 40), blocksize=[16], compression="none"),
+        dict(base, H=33, W=20, axis="YXS", S=2, dtype="float32", band_chunk=1, chunks=((16, 17), (20,)), blocksize=None, scheduler="shuffle:4"),
+        dict(base, H=64, W=64, axis="SYX", S=3, dtype="uint8", band_chunk=2, chunks=(32, 32)),
+        # bool images (stored as 8-bit 0/1)
+        dict(base, H=50, W=70, dtype="bool"),
+        dict(base, H=33, W=40, dtype="bool", compression="none", nodata=0),
+        dict(base, H=40, W=40, dtype="bool", axis="SYX", S=2, band_chunk=1, compression="zstd", stats=True),
+        dict(base, H=40, W=50, dtype="bool", axis="YXS", S=3, compression="lzw", scheduler="threads:3"),
+        # an explicit predictor with codecs whose readers do not undo it (ignored like GDAL's PREDICTOR option)
+        dict(base, H=40, W=50, dtype="int16", compression="packbits", predictor=True),
+        dict(base, H=40, W=50, dtype="uint16", compression="lerc", predictor=2),
+        dict(base, H=40, W=50, dtype="float32", compression="lerc_zstd", predictor=True, kw=dict(zstd_level=3)),
+        dict(base, H=40, W=50, dtype="uint8", compression="none", predictor=True),
         # every lossless codec the writer accepts, with its tuning options (writer spelling and GDAL spelling)
         *codec_configs(base),
         # irregular source chunking whose largest chunk equals the tile size (chunksize == tile, no rechunk before dec5ed6)
@@ -473,6 +489,13 @@ def e2e_configs(tier):
             c["twice"] = True
         if ax == "SYX":
             c["band_chunk"] = rng.choice([1, -1])
+        elif ax == "YXS" and rng.random() < 0.4:
+            c["band_chunk"] = rng.choice([1, 1, 2])
+        if rng.random() < 0.06 and not str(c["compression"]).startswith("lerc"):    # LERC refuses bool blocks (loudly)
+            c["dtype"] = "bool"
+            if c.get("nodata") is not None and not (c["nodata"] == 0 or c["nodata"] == 1):
+                c["nodata"] = 1                     # a nodata value the 8-bit file can hold
+            c.pop("predictor", None)
         c["scheduler"] = rng.choice(["sync", f"shuffle:{i}", f"shuffle:{i + 100}", "threads:2", "threads:4"])
         if rng.random() < 0.5 and level0_tiles(c) <= 20:
             # small parts / spilling only where every bag partition holds one tile and spill_sz >= min_write_sz:
@@ -800,8 +823,8 @@ def check_file(cfg, rec):
     else:
         a3, p3 = a.reshape(S, Hp, Wp), pix
     for name, arr in (("tifffile", a3), ("rasterio", b)):
-        if arr.shape != (p3.shape[0], Hp, Wp) or arr.dtype.newbyteorder("=") != pix.dtype.newbyteorder("="):
-            msgs.append(f"{name}: decoded {arr.shape} {arr.dtype}, want {(p3.shape[0], Hp, Wp)} {pix.dtype}")
+        if arr.shape != (p3.shape[0], Hp, Wp) or arr.dtype.newbyteorder("=") != stored_dtype(pix.dtype):
+            msgs.append(f"{name}: decoded {arr.shape} {arr.dtype}, want {(p3.shape[0], Hp, Wp)} {stored_dtype(pix.dtype)}")
         elif not np.array_equal(arr[:, :H, :W], p3):
             bad = np.argwhere(arr[:, :H, :W] != p3)[0].tolist()
             msgs.append(f"{name}: pixel {bad} decodes to {arr[tuple(bad)]!r}, input {p3[tuple(bad)]!r}")
@@ -843,7 +866,113 @@ def check_file(cfg, rec):
     return not msgs, "; ".join(msgs[:4]) or f"{len(observed)} tiles, {len(ifds)} IFDs, {len(data)} bytes", ifds
 
 
-PREDICATES = {"layout": p_layout, "flat": p_flat, "offsets": p_offsets, "e2e": p_e2e}
+def stored_dtype(dt):
+    """a bool image is stored as 8-bit 0/1 (neither GeoTIFF as read by GDAL nor the writer has a 1-byte boolean)"""
+    dt = np.dtype(dt)
+    return np.dtype("uint8") if dt.kind == "b" else dt.newbyteorder("=")
+
+
+def check_decode(cfg, path, pix):
+    """both independent readers return the saved pixels (top-left H x W of the padded image)"""
+    from vlib import cogio
+
+    H, W, S, ax = cfg["H"], cfg["W"], cfg.get("S", 1), cfg["axis"]
+    if not os.path.exists(path):
+        return [f"{os.path.basename(os.path.dirname(path))}/{os.path.basename(path)} was not written"]
+    msgs = []
+    try:
+        a = cogio.decode_tifffile(path)
+        b, _ = cogio.decode_rasterio(path)
+    except Exception as e:
+        return [f"reader failed: {type(e).__name__}: {e}"]
+    Hp, Wp = b.shape[-2:]
+    if ax == "YX":
+        a3, p3 = a.reshape(1, Hp, Wp), pix[np.newaxis]
+    elif ax == "YXS":
+        a3, p3 = a.reshape(Hp, Wp, S).transpose(2, 0, 1), pix.transpose(2, 0, 1)
+    else:
+        a3, p3 = a.reshape(S, Hp, Wp), pix
+    for name, arr in (("tifffile", a3), ("rasterio", b)):
+        if arr.shape[0] != p3.shape[0] or arr.dtype != stored_dtype(pix.dtype):
+            msgs.append(f"{name}: decoded {arr.shape} {arr.dtype}, want {p3.shape[0]} bands of {stored_dtype(pix.dtype)}")
+        elif not np.array_equal(arr[:, :H, :W], p3):
+            bad = np.argwhere(arr[:, :H, :W] != p3)[0].tolist()
+            msgs.append(f"{name}: pixel {bad} decodes to {arr[tuple(bad)]!r}, input {p3[tuple(bad)]!r} "
+                        f"({int((arr[:, :H, :W] != p3).sum())} of {p3.size} differ)")
+    return msgs
+
+
+def p_pair(cfg):
+    """two saves computed in ONE dask.compute (same array to two destinations, or two arrays with identical header
+    options): both files exist and each decodes to ITS input"""
+    from vlib import cogio
+
+    def fix(c):
+        c = dict(c)
+        c["chunks"] = tuple(tuple(x) if isinstance(x, (list, tuple)) else x for x in c["chunks"])
+        return c
+    cfg = dict(cfg, a=fix(cfg["a"]), b=None if cfg.get("b") is None else fix(cfg["b"]))
+    work = tempfile.mkdtemp(prefix="verif-c05-")
+    try:
+        with limited(120, "two saves in one compute"):
+            out = cogio.run_pair(cfg, work)
+        msgs = []
+        for which, (path, pix, c) in zip("AB", out):
+            msgs += [f"destination {which}: {m}" for m in check_decode(c, path, pix)]
+        return not msgs, "; ".join(msgs[:3]) or "both files decode to their inputs"
+    finally:
+        import shutil
+        shutil.rmtree(work, ignore_errors=True)
+
+
+LOSSLESS = {"deflate", "adobe_deflate", "zstd", "lzma", "lzw", "packbits", "none", "lerc", "lerc_deflate", "lerc_zstd"}
+
+
+def p_noloss(cfg):
+    """no silent loss: with a lossless codec the writer either fails loudly or the file decodes to the exact pixels -
+    whatever options / dtype it is given; a compressionargs dict handed in is not modified and can be reused"""
+    from vlib import cogio
+    import copy
+
+    cfg = copy.deepcopy(dict(cfg))           # the dict handed to the writer must not leak into the recorded replay
+    cfg["chunks"] = tuple(cfg["chunks"])
+    assert str(cfg["compression"]).lower() in LOSSLESS
+    work = tempfile.mkdtemp(prefix="verif-c05-")
+    try:
+        shared = cfg.get("compressionargs")
+        before = copy.deepcopy(shared)
+        c1 = dict(cfg, share_compressionargs=True, name="first")
+        try:
+            with limited(90, "save"):
+                rec = cogio.run_writer(c1, work)
+        except ImplTimeout:
+            raise
+        except Exception as e:
+            if shared != before:
+                return False, f"compressionargs modified in place: {before} -> {shared}"
+            return True, f"refused loudly: {type(e).__name__}"
+        msgs = check_decode(c1, rec["path"], rec["pix"])
+        if shared != before:
+            msgs.append(f"the caller's compressionargs were modified in place: {before} -> {shared}")
+        if cfg.get("then") and not msgs:
+            # the same dict reused for another file with another codec
+            c2 = dict(cfg, **cfg["then"], compressionargs=shared, share_compressionargs=True, name="second")
+            c2.pop("then")
+            try:
+                with limited(90, "second save"):
+                    rec2 = cogio.run_writer(c2, work)
+                msgs += [f"second file ({c2['compression']}): {m}" for m in check_decode(c2, rec2["path"], rec2["pix"])]
+            except ImplTimeout:
+                raise
+            except Exception as e:
+                msgs.append(f"second save with the same compressionargs dict failed: {type(e).__name__}: {e}")
+        return not msgs, "; ".join(msgs[:3]) or "exact"
+    finally:
+        import shutil
+        shutil.rmtree(work, ignore_errors=True)
+
+
+PREDICATES = {"layout": p_layout, "flat": p_flat, "offsets": p_offsets, "e2e": p_e2e, "pair": p_pair, "noloss": p_noloss}
 
 
 def canon(x):
@@ -854,6 +983,56 @@ def canon(x):
     if isinstance(x, (np.integer,)):
         return int(x)
     return x
+
+
+def pair_configs(tier):
+    """two saves in one dask.compute: the same array to two destinations, two arrays with identical header options
+    (stats=False: header, meta and stats agree), equally named files, a shared parts directory, spilling, schedulers"""
+    rng = core.rng("c05-pair")
+    base = dict(S=1, axis="YX", dtype="uint16", chunks=(32, 32), blocksize=[32, 16], compression="deflate", stats=False, H=50, W=70)
+    raw = dict(base, compression="none", spill_sz=4096, min_write_sz=1024)
+    cfgs = [
+        dict(a=base, b=None),
+        dict(a=base, b=dict(base, salt=1)),
+        dict(a=base, b=None, same_name=True, scheduler="threads:4"),
+        dict(a=dict(base, stats=True), b=dict(base, stats=True, salt=3), scheduler="shuffle:2"),
+        dict(a=dict(base, axis="SYX", S=2, dtype="uint8"), b=dict(base, axis="SYX", S=2, dtype="uint8", salt=2), same_name=True),
+        dict(a=raw, b=dict(raw, salt=1), same_name=True, parts_base=True, min_write_sz=1024, scheduler="shuffle:2"),
+        dict(a=raw, b=dict(raw, salt=1), same_name=True, parts_base=True, min_write_sz=1024, scheduler="shuffle:3"),
+        dict(a=raw, b=None, same_name=True, parts_base=True, min_write_sz=1024, scheduler="threads:4"),
+        dict(a=raw, b=dict(raw, salt=5), parts_base=True, min_write_sz=1024, scheduler="shuffle:7"),
+    ]
+    for i in range(4 if tier == "quick" else 60):
+        a = dict(base, H=rng.choice([20, 50, 64]), W=rng.choice([33, 70]), dtype=rng.choice(["uint8", "int16", "float32"]),
+                 compression=rng.choice(["deflate", "none", "zstd"]), axis=rng.choice(["YX", "YX", "YXS", "SYX"]))
+        a["S"] = 1 if a["axis"] == "YX" else rng.choice([2, 3])
+        c = dict(a=a, b=rng.choice([None, dict(a, salt=i + 1)]), same_name=rng.random() < 0.5, parts_base=rng.random() < 0.5,
+                 scheduler=rng.choice(["sync", f"shuffle:{i}", "threads:3"]))
+        if rng.random() < 0.5:
+            c["min_write_sz"] = 1024
+            for k in ("a", "b"):
+                if c[k] is not None:
+                    c[k] = dict(c[k], spill_sz=rng.choice([1024, 4096]), min_write_sz=1024)
+        cfgs.append(c)
+    return cfgs
+
+
+def noloss_configs(tier):
+    """lossless codecs with options / dtypes the codec may not accept, and compressionargs dicts that are reused"""
+    base = dict(S=1, axis="YX", dtype="int16", chunks=(32, 32), blocksize=[32, 16], stats=False, H=40, W=50)
+    return [
+        dict(base, compression="lzw", level=3),
+        dict(base, compression="packbits", level=1),
+        dict(base, compression="lerc", dtype="int64"),
+        dict(base, compression="lerc_deflate", dtype="uint64", kw=dict(zlevel=5)),
+        dict(base, compression="zstd", compressionargs={"compression": "deflate"}),
+        dict(base, compression="deflate", compressionargs={"bogus": 1}),
+        dict(base, compression="lzma", compressionargs={"level": 2}),
+        dict(base, compression="lerc_deflate", compressionargs={}, then={"compression": "zstd"}),
+        dict(base, compression="lerc_zstd", compressionargs={"level": 0}, kw=dict(zstd_level=3), then={"compression": "deflate", "kw": {}}),
+        dict(base, compression="deflate", compressionargs={}, level=9, then={"compression": "lzw", "level": None}),
+        dict(base, compression="zstd", compressionargs={"level": 3}, kw=dict(zstd_level=7), then={"compression": "zstd", "kw": {}}),
+    ]
 
 
 def search(out, tier, e2e_done):
@@ -882,6 +1061,10 @@ def search(out, tier, e2e_done):
         out.count("predicate:e2e")
         out.case(("pred", "e2e", canon(cfg)), True)
         report("e2e", (cfg,), ok, detail)
+    for cfg in pair_configs(tier):
+        run("pair", cfg)
+    for cfg in noloss_configs(tier):
+        run("noloss", cfg)
     dims = [1, 2, 3, 7, 8, 9, 15, 16, 17, 31, 32, 33, 47, 48, 49, 63, 64, 65, 100, 127, 128, 129, 255, 256, 257, 300, 511,
             512, 513, 520, 1000, 1025, 4097]
     bss = [[16], [32, 16], [(16, 32)], [48, 16], [(32, 16), 16, 32], [100], [1], [17], [(5, 200), 40], [256], [512, 256, 128]]
